@@ -81,6 +81,38 @@ class LazyOperator:
         return self.op(*[arg.eval(data_mask, env) for arg in self.args])
 
 
+class LazyGrouping:
+    """Lazy parenthesized expression.
+
+    It evaluates to whatever the expression within the parentheses evaluates to. It exists so the
+    parentheses are part of the name of the call: ``I((x + y) * z)`` and ``I(x + y * z)`` are
+    different calls and must have different names.
+
+    Parameters
+    ----------
+    expr:
+        A lazy instance.
+    """
+
+    def __init__(self, expr):
+        self.expr = expr
+
+    def __str__(self):
+        return f"({self.expr})"
+
+    def __hash__(self):
+        return hash(("()", self.expr))
+
+    def __eq__(self, other):
+        return isinstance(other, type(self)) and self.expr == other.expr
+
+    def accept(self, visitor):
+        return self.expr.accept(visitor)
+
+    def eval(self, data_mask, env):
+        return self.expr.eval(data_mask, env)
+
+
 class LazyVariable:
     """Lazy variable name.
 
@@ -295,7 +327,7 @@ class CallResolver:
         return self.expr.accept(self)
 
     def visitGroupingExpr(self, expr):
-        return expr.expression.accept(self)
+        return LazyGrouping(expr.expression.accept(self))
 
     def visitBinaryExpr(self, expr):
         otype = expr.operator.kind
